@@ -938,7 +938,12 @@ type _structAssemblerRepr _structAssembler
 func (w *_structAssemblerRepr) AssembleKey() datamodel.NodeAssembler {
 	switch stg := reprStrategy(w.schemaType).(type) {
 	case schema.StructRepresentation_Map:
-		return (*_structAssembler)(w).AssembleKey()
+		asm := (*_structAssembler)(w).AssembleKey()
+		// The key supplied at this level is the serial name; the repeated-field check needs the field name.
+		w.curKey.finish = func() error {
+			return (*_structAssembler)(w).checkRepeatedField(inboundMappedKey(w.schemaType, stg, w.curKey.val.String()))
+		}
+		return asm
 	case schema.StructRepresentation_Stringjoin,
 		schema.StructRepresentation_StringPairs:
 		// TODO: perhaps the ErrorWrongKind type should also be extended to explicitly describe whether the method was applied on bare DM, type-level, or repr-level.
@@ -1053,13 +1058,14 @@ func (w *_listStructAssemblerRepr) AssembleValue() datamodel.NodeAssembler {
 			}}
 		}
 		field := fields[w.nextIndex]
-		w.doneFields[w.nextIndex] = true
-		w.nextIndex++
 
 		entryAsm, err := (*_structAssembler)(w).AssembleEntry(field.Name())
 		if err != nil {
 			return _errorAssembler{err}
 		}
+		// (marked only after the entry was accepted: the key assembler rejects fields that are already done)
+		w.doneFields[w.nextIndex] = true
+		w.nextIndex++
 		entryAsm = assemblerRepr(entryAsm)
 		return entryAsm
 	case schema.StructRepresentation_ListPairs:
